@@ -47,7 +47,12 @@ func cutSegs(stream []byte, cuts []int) [][]byte {
 
 const c01Prologue = "EHLO c.example\r\nMAIL FROM:<ok@a.example>\r\nRCPT TO:<ok@b.example>\r\nDATA\r\n"
 
-func evalC01(c C01Case) *h.Finding {
+func evalC01(c C01Case) (f *h.Finding) {
+	defer func() {
+		if p := recover(); p != nil {
+			f = h.F("c01-reader-panic", "stream %q (cuts %v, buf %d, limit %d): the reader panicked: %v", c.Stream, c.Cuts, c.Buf, c.Limit, p)
+		}
+	}()
 	want, rest, complete := ref.Unstuff(c.Stream)
 	if !complete {
 		return h.F("harness-error", "stream has no end marker")
@@ -182,7 +187,7 @@ func C01(tier string) int {
 		limits = []int64{0, 1 << 20}
 		allSegUpTo = 7
 	}
-	run.Rule = fmt.Sprintf("every octet stream body+CRLF.CRLF+tail and .CRLF+tail with body over the class alphabet {'.',CR,LF,'a'} of length<=%d (reader seam) / <=%d (full server path), each x segmentations {one segment, one octet per segment, every 2-split%s} x backend read sizes %v; distinct by construction (enumeration), non-trivial = body contains '.', CR or LF. Oracle: ref.Unstuff. Random 256-octet streams are a labelled supplement (counters.random_supplement) and not part of 'exhaustive'.",
+	run.Rule = fmt.Sprintf("every octet stream body+CRLF.CRLF+tail and .CRLF+tail with body over the class alphabet {'.',CR,LF,'a'} of length<=%d (reader seam) / <=%d (full server path), each x segmentations {one segment, one octet per segment, every 2-split%s} x backend read sizes %v x size limit {none, exactly the message size}; distinct by construction (enumeration), non-trivial = body contains '.', CR or LF. Oracle: ref.Unstuff. Random 256-octet streams are a labelled supplement (counters.random_supplement) and not part of 'exhaustive'.",
 		L, LS, map[bool]string{true: fmt.Sprintf(", all 2^(n-1) segmentations for streams of <=%d+5 octets", allSegUpTo), false: ""}[allSegUpTo > 0], bufs)
 	run.Assumptions = []string{
 		"the reader branches only on '.', CR, LF vs. any other octet, so one representative 'a' stands for the 253 other octets (the random supplement exercises all 256 values)",
@@ -224,9 +229,15 @@ func C01(tier string) int {
 		if mlen > len(stream) {
 			mlen = len(stream)
 		}
+		want0, _, _ := ref.Unstuff(stream)
+		lims := limits
+		if len(want0) > 0 {
+			// a size limit that the message fits exactly: the result must still not depend on segmentation
+			lims = append(append([]int64(nil), limits...), int64(len(want0)))
+		}
 		for _, cuts := range segVariants(stream, mlen, seam == "reader" && bodyLen <= allSegUpTo) {
 			for _, buf := range bufList {
-				for _, lim := range limits {
+				for _, lim := range lims {
 					c := C01Case{Seam: seam, Stream: stream, Cuts: cuts, Buf: buf, Limit: lim}
 					f := evalC01(c)
 					run.Eval(nontrivial)
